@@ -3,6 +3,7 @@
 cd "$(dirname "$0")/.."
 for d in seeded/*/; do
   id=$(basename "$d"); p=${id%-*}; v=${id#*-}
+  if grep -q obsolete_since "$d/meta.json" 2>/dev/null; then echo "$id obsolete (see meta.json)"; continue; fi
   extra=""
   case "$id" in C15-A|C15-B) extra="C15 C20";; C10-B) extra="C10 C16";; C01-A|C02-B|C08-B) extra="$p C07";; C17-A) extra="C17 C07";; esac
   /venv/bin/python -m harness.seeded recheck $p $v $extra 2>&1 | /venv/bin/python -c "
